@@ -160,6 +160,10 @@ def r04_2(ctx, run, rule='R04.2'):
                 (run.proved if okk else run.violation)(rule, fn, d, 'left operands first, right operands second' if okk else
                                                         f'the comparator is called with operands in the order {sides}, not (left, left, right, right): the result is the reverse order', f'{b.file}:{b.line}')
         loc = f'{b.file}:{b.line}'
+        if not any(isinstance(k, tuple) for k in table):
+            run.undecided(rule, fn, 'dispatch', 'no path of this function tests the container kind of both operands: the kind-pair dispatch is not written here '
+                          '(moved to a helper?), so its table is not decided', loc)
+            continue
         for k, v in expect.items():
             got = table.get(k)
             d = f'pair[{k[0]},{k[1]}]'
